@@ -166,6 +166,40 @@ func (st *execState) exec(w []string) string {
 			return fmt.Sprintf("%s hub=%d", classify(err), hub)
 		}
 		return fmt.Sprintf("accepted %d hub=%d", sb.Size, hub)
+	case "recvra":
+		// recvra <key> <truth> <supported> <skip> <data>: the source is a *bytes.Reader / *io.SectionReader over
+		// skip++data (ReadAt, Size, Seek available) that the caller has already read past `skip`
+		if len(w) != 6 || st.sto == nil {
+			return "bad-op"
+		}
+		kb, ok := hk.UnHex(w[1])
+		skip, ok2 := hk.UnHex(w[4])
+		data, ok3 := hk.UnHex(w[5])
+		if !ok || !ok2 || !ok3 {
+			return "bad-op"
+		}
+		br, ok := blob.Parse(string(kb))
+		if !ok {
+			return "bad-op"
+		}
+		whole := append(append([]byte{}, skip...), data...)
+		var src io.Reader
+		if len(whole)%2 == 0 {
+			rd := bytes.NewReader(whole)
+			io.CopyN(io.Discard, rd, int64(len(skip)))
+			src = rd
+		} else {
+			rd := io.NewSectionReader(bytes.NewReader(whole), 0, int64(len(whole)))
+			io.CopyN(io.Discard, rd, int64(len(skip)))
+			src = rd
+		}
+		st.drainHub()
+		sb, err := blobserver.Receive(ctx, st.sto, br, src)
+		hub := st.drainHub()
+		if err != nil {
+			return fmt.Sprintf("%s hub=%d", classify(err), hub)
+		}
+		return fmt.Sprintf("accepted %d hub=%d", sb.Size, hub)
 	case "put":
 		if len(w) < 7 || st.sto == nil {
 			return "bad-op"
@@ -538,7 +572,36 @@ func Run(r *hk.Run) {
 			fin := []string{"eof", "eof", "eof", "eof+", "err"}[rnd.Intn(5)]
 			frags := fragment(rnd, o.offered)
 			hkey := hk.Hex([]byte(o.key))
-			switch path := rnd.Intn(10); {
+			switch path := rnd.Intn(11); {
+			case path == 10:
+				// a seekable source (ReadAt + Size) the caller has already read a prefix of: only the REST is the blob;
+				// offered under the ref of the rest (accept) or, when the offer is corrupt, typically under the ref of
+				// the whole / of something else (reject)
+				skip := rnd.Bytes(1 + rnd.Intn(8))
+				oo := o
+				if rnd.Chance(40) && o.supported {
+					// the ref denotes skip++rest: the WHOLE underlying content hashes to it, the stream does not
+					whole := append(append([]byte{}, skip...), o.offered...)
+					name := strings.SplitN(o.key, "-", 2)[0]
+					if name == "sha1" || name == "sha224" || name == "sha256" {
+						oo = offer{key: refOf(name, whole), truth: whole, offered: o.offered, kind: "rest-of-seekable-source-under-ref-of-whole", supported: true}
+					}
+				}
+				out := c.op(fmt.Sprintf("recvra %s %s %s %s %s", hk.Hex([]byte(oo.key)), oo.truthTok(), b01(oo.supported), hk.Hex(skip), hk.Hex(oo.offered)))
+				want := c.verdict(oo, "eof")
+				got := strings.Fields(out)
+				r.Distinct("recvra/" + oo.kind + "/" + got[0])
+				if got[0] != want {
+					r.Fail("receive-verdict:seekable-source:"+oo.kind+":"+want+"->"+got[0], c.label+": Receive from a seekable source advanced past a prefix, "+oo.kind+" content", want, out, r.CaseOps())
+				}
+				if want == "accepted" {
+					c.accepted[oo.key] = oo.offered
+				} else {
+					if !strings.HasSuffix(out, "hub=0") {
+						r.Fail("rejected-upload-notifies-hub:"+oo.kind, c.label+": hub notified of a rejected blob", "hub=0", out, r.CaseOps())
+					}
+					c.noTrace(oo, "receive")
+				}
 			case path < 5:
 				out := c.op(fmt.Sprintf("recv %s %s %s %s%s", hkey, o.truthTok(), b01(o.supported), fin, fragTokens(frags)))
 				want := c.verdict(o, fin)
